@@ -463,6 +463,16 @@ def handler_always_raises(handler: ast.ExceptHandler, class_names: Set[str]) -> 
                     return False, "handler re-raises the original exception unconverted"
                 continue
             name = (dotted(exc.func if isinstance(exc, ast.Call) else exc) or "").split(".")[-1]
+            if isinstance(exc, ast.Name) and name not in class_names:
+                # raise <local> where the local was built from an accepted class in this handler
+                built = [
+                    (dotted(n.value.func) or "").split(".")[-1]
+                    for stmt in handler.body for n in ast.walk(stmt)
+                    if isinstance(n, ast.Assign) and isinstance(n.value, ast.Call)
+                    and any(isinstance(t, ast.Name) and t.id == exc.id for t in n.targets)
+                ]
+                if built and all(b in class_names for b in built):
+                    continue
             if name not in class_names:
                 return False, f"handler raises {name}"
     return True, ""
@@ -514,3 +524,63 @@ def is_catch_all(handler: ast.ExceptHandler) -> bool:
         return True
     names = list(handler.type.elts) if isinstance(handler.type, ast.Tuple) else [handler.type]
     return any((dotted(n) or "").split(".")[-1] in ("Exception", "BaseException") for n in names)
+
+
+# --------------------------------------------------------------------------------------
+# forward name taint (flow-insensitive inside a function, through arguments across calls)
+# --------------------------------------------------------------------------------------
+
+
+def forward_taint(prog: Program, seeds: Iterable[Tuple[FuncInfo, str]], any_expression: bool = True) -> Dict[str, Set[str]]:
+    """function qualname -> tainted local/parameter names.  A local becomes tainted when it is
+    assigned from an expression mentioning a tainted name (``any_expression``) or the bare name;
+    a parameter becomes tainted when a tainted name (or expression) is passed for it."""
+    tainted: Dict[str, Set[str]] = {}
+    work: List[Tuple[FuncInfo, str]] = []
+    for func, name in seeds:
+        if name not in tainted.setdefault(func.qualname, set()):
+            tainted[func.qualname].add(name)
+            work.append((func, name))
+
+    def mentions(expr: ast.AST, name: str) -> bool:
+        """Does the *value* of expr carry the string held in ``name`` (the name itself, or text built
+        from it by f-strings, concatenation, %-formatting, str()/os.path.* helpers)?"""
+        if isinstance(expr, ast.Name):
+            return expr.id == name
+        if not any_expression:
+            return False
+        if isinstance(expr, ast.JoinedStr):
+            return any(isinstance(v, ast.FormattedValue) and mentions(v.value, name) for v in expr.values)
+        if isinstance(expr, ast.BinOp) and isinstance(expr.op, (ast.Add, ast.Mod)):
+            return mentions(expr.left, name) or mentions(expr.right, name)
+        if isinstance(expr, ast.IfExp):
+            return mentions(expr.body, name) or mentions(expr.orelse, name)
+        if isinstance(expr, ast.Tuple):
+            return any(mentions(e, name) for e in expr.elts)
+        if isinstance(expr, ast.Call):
+            callee = dotted(expr.func) or ""
+            if callee in ("str", "repr", "os.fspath") or callee.startswith("os.path.") or callee.endswith(".format"):
+                return any(mentions(a, name) for a in expr.args) or (
+                    isinstance(expr.func, ast.Attribute) and mentions(expr.func.value, name))
+        return False
+
+    while work:
+        func, var = work.pop()
+        for node in walk_local(func.node):
+            if isinstance(node, ast.Assign):
+                for target in node.targets:
+                    for tgt, value, _ in Program._unpack(target, node.value):
+                        if isinstance(tgt, ast.Name) and value is not None and mentions(value, var):
+                            if tgt.id not in tainted[func.qualname]:
+                                tainted[func.qualname].add(tgt.id)
+                                work.append((func, tgt.id))
+        for site in prog.sites_in(func):
+            if site.wild or not site.targets:
+                continue
+            for target in site.targets:
+                bound = Program.bind_args(target, site.node, skip_self=target.kind in ("instance", "class") or target.name == "__init__")
+                for param, arg in bound.items():
+                    if mentions(arg, var) and param not in tainted.setdefault(target.qualname, set()):
+                        tainted[target.qualname].add(param)
+                        work.append((target, param))
+    return tainted
